@@ -79,7 +79,11 @@ pub fn bfs<M: Model>(m: &M, max_depth: Option<usize>, max_states: usize) -> BfsR
     let mut frontier: Vec<usize> = Vec::new();
     for (i, (label, st)) in inits.into_iter().enumerate() {
         let tr = || json!({"engine": m.name(), "init": label, "actions": []});
-        m.check_state(&st, &tr, &mut acc);
+        if let Err(msg) = guarded(|| m.check_state(&st, &tr, &mut acc)) {
+            acc.count("panics");
+            acc.violate(Violation { prop: "C06", kind: "panic".into(), case: tr(), detail: format!("undocumented panic while observing an initial state: {msg}") });
+            continue;
+        }
         let k = m.key(&st);
         if let Some(&j) = index.get(&k) {
             if let Some(why) = m.same_object(&nodes[j].state, &st) {
@@ -87,7 +91,9 @@ pub fn bfs<M: Model>(m: &M, max_depth: Option<usize>, max_states: usize) -> BfsR
             }
             continue;
         }
-        m.check_new_state(&st, &tr, &mut acc);
+        if let Err(msg) = guarded(|| m.check_new_state(&st, &tr, &mut acc)) {
+            acc.violate(Violation { prop: "C06", kind: "panic".into(), case: tr(), detail: format!("undocumented panic while observing an initial state: {msg}") });
+        }
         index.insert(k, nodes.len());
         frontier.push(nodes.len());
         nodes.push(Node { state: st, parent: None, init: i, depth: 0 });
@@ -223,8 +229,13 @@ pub fn replay<M: Model>(m: &M, case: &Value) -> Option<Vec<Violation>> {
     let mut done: Vec<Value> = Vec::new();
     {
         let tr = || json!({"engine": m.name(), "init": label, "actions": []});
-        m.check_state(&st, &tr, &mut acc);
-        m.check_new_state(&st, &tr, &mut acc);
+        if let Err(msg) = guarded(|| {
+            m.check_state(&st, &tr, &mut acc);
+            m.check_new_state(&st, &tr, &mut acc);
+        }) {
+            acc.violate(Violation { prop: "C06", kind: "panic".into(), case: tr(), detail: format!("undocumented panic while observing an initial state: {msg}") });
+            return Some(acc.violations);
+        }
     }
     for av in case["actions"].as_array()? {
         let a = m.action_from_json(av)?;
